@@ -13,6 +13,21 @@ CLAIMED = {
  "C08": ("reference-model monitor over registration histories (accept/reject by category), reachability dispatch of every accepted form, structural-invariant hook after every step",
          "Accept/reject of every step of every generated history equals the model's, at route.AddRoute and Flame level, in restart and continue mode; accepted routes are dispatched as the model says afterwards. Exploration.",
          "Segments outside the four kinds are driven for totality only. Loud failure = error (tree) / non-runtime panic (Flame).", "DESIGN.md §5 C08"),
+ "C03": ("trace monitor over a per-request event log (instrumented handlers + spy writer) compared with a statement-level chain interpreter, plus interpreter-independent trace predicates",
+         "Every generated handler program's complete event sequence, status and body equal the interpreter's prediction; order, at-most-once, nesting and stop-on-write/cancel are also judged directly on the trace. Exploration over programs of <= ~14 handlers with <= 5 actions each.",
+         "The interpreter is the statement restated in ~60 lines; return-value rendering uses the C14 table.", "DESIGN.md §5 C03"),
+ "C06": ("reference recogniser/parser monitor with fixpoint check; exhaustive enumeration of a bounded string space plus random derivations, byte edits and hostile bytes",
+         "Acceptance, parsed structure, canonical rendering and its fixpoint agree with an independent recursive-descent parser of the documented EBNF on every enumerated / generated string; exhaustive only inside the stated alphabet and length bounds.",
+         "Terminal classes ident/regex pinned at design time to the lexer's classes.", "DESIGN.md §5 C06"),
+ "C09": ("reference-model monitor with per-route constraint sets over router histories (registrations, Headers() calls, requests)",
+         "For every request of every generated history the serving route equals the model's choice among routes whose latest constraint set passes; includes static, optional short/long, multi-method and re-specified constraints. Exploration.",
+         "Single-valued headers; Routes()/AutoHead return the Route of their last expansion (flat-expansion semantics).", "DESIGN.md §5 C09"),
+ "C10": ("differential monitor: Flame.ServeHTTP against route.Tree.Match on an identically populated twin tree; hook-based enumeration of the whole shortcut table after every step",
+         "Every request of every generated history has the same outcome (route, parameters or not-found) as full tree matching; with hooks every table entry is compared with matching on the router's own tree. Exploration.",
+         "The twin receives the same AddRoute/SetHeaderMatcher calls; without hooks only the boundary comparison runs.", "DESIGN.md §5 C10"),
+ "C11": ("differential monitor: registration program on one instance against the harness's own flat expansion on a second instance",
+         "For every generated program and every method x instance path, status, handler-id trace and parameters are equal, statements are refused in both or neither, and Combo refuses a repeated verb. Exploration.",
+         "The flattener is the statement's rule (prefix and handler concatenation, method expansion, AutoHead, scope restore).", "DESIGN.md §5 C11"),
 }
 
 NOT_YET = {
